@@ -201,6 +201,11 @@ class SharedMemoryFileBufferedCollection(FileBufferedCollection):
                 # If all we had to do is set the flag, it could be done without any
                 # check, but we also need to increment the number of modified
                 # items, so we may as well do the update conditionally as well.
+                # Operations that do not load first (reset, clear) modify this
+                # object's own data, which is not necessarily the container
+                # stored in the buffer (another collection pointing to the same
+                # file may have created the entry), so it must be stored.
+                type(self)._buffer[self._filename]["contents"] = self._data
                 if not type(self)._buffer[self._filename]["modified"]:
                     type(self)._buffer[self._filename]["modified"] = True
                     type(self)._CURRENT_BUFFER_SIZE += 1
